@@ -240,10 +240,23 @@ func unlessBuilder(m Mode) *parser.Builder {
 }
 
 // (d) statements separated by line breaks only, some beginning with '(' or '[': smart mode reads them as statements
-func runC13Smart(t *fw.T) {
+func runC13Smart(t *fw.T) { runC13SmartSized(t, false) }
+
+// runC13SmartLong: scripts of 150 to 650 top-level statements, every second one followed by a statement that begins
+// with ( or [ on its own line: what smart mode does at the n-th such line is what it does at the first.
+func runC13SmartLong(t *fw.T) { runC13SmartSized(t, true) }
+
+func runC13SmartSized(t *fw.T, long bool) {
 	r := t.Rand()
 	g := gen.NewSyn(r, gen.SynOpts{ExprDepth: 1 + r.IntN(3), StmtDepth: 1 + r.IntN(3), MaxStmts: 2 + r.IntN(4)})
 	prog := g.Program()
+	if long {
+		g = gen.NewSyn(r, gen.SynOpts{ExprDepth: 1 + r.IntN(2), StmtDepth: 1, MaxStmts: 2, MaxNodes: 40000})
+		prog = &gen.Node{K: gen.KProgram}
+		for i, n := 0, 150+r.IntN(500); i < n; i++ {
+			prog.Kids = append(prog.Kids, g.Stmt(r.IntN(2), 1+r.IntN(2)))
+		}
+	}
 	// sprinkle statements that begin with ( or [
 	var add func(list []*gen.Node) []*gen.Node
 	add = func(list []*gen.Node) []*gen.Node {
@@ -283,6 +296,9 @@ func runC13Smart(t *fw.T) {
 	}
 	rd := gen.Render(prog, r, gen.EmitOpts{Quote: 2}, lay)
 	t.Count("smart_cuts", rd.SmartCuts)
+	if long {
+		t.Feature("line-leading brackets per long script (x50)", fmt.Sprint(rd.SmartCuts/50*50))
+	}
 	// sanity of the case: with ';' inserted the text is the tree for the reference parser and for default mode
 	semi := rd.WithSemis()
 	ac, ok := acornTrees(t, []string{semi}, false)
@@ -593,6 +609,7 @@ func init() {
 			}},
 			{Name: "tolerant", Quick: 40000, Thorough: 200000, Run: runC13Tolerant},
 			{Name: "smart", Quick: 40000, Thorough: 200000, Run: runC13Smart},
+			{Name: "smart/long-scripts", Quick: 320, Thorough: 2400, Run: runC13SmartLong},
 			{Name: "modes-agree/stripping-plugin", Quick: 12000, Thorough: 60000, Run: runC13Stripping},
 			{Name: "smart/registered-operator-ids", Quick: 600, Thorough: 600, Exhaustive: true, Run: runC13SmartOperatorIds},
 			{Name: "builder-reconfigured-after-build", Quick: 24000, Thorough: 100000, PanicInconclusive: true, Run: runC13Reconfigure},
